@@ -1,6 +1,7 @@
 """C16 — file templates follow their files; the loader resolves names predictably."""
 import itertools
 import os
+import sys
 import re
 import shutil
 import tempfile
@@ -181,7 +182,7 @@ def correspondence(ctx):
         shutil.rmtree(d, ignore_errors=True)
 
 
-NAMES = ['a.pt', 'b.pt', 'c', 'sub/x.pt', 'x.y.pt', 'c.pt', 'sub/c']
+NAMES = ['a.pt', 'b.pt', 'c', 'sub/x.pt', 'x.y.pt', 'c.pt', 'sub/c', 'v1.2/index', 'v1.2/index.pt', '.header', '.header.pt', 'sub/x']
 
 
 def loader_case(rng, root):
@@ -194,7 +195,7 @@ def loader_case(rng, root):
     ext = rng.choice([None, 'pt', '.pt', 'txt'])
     loads = []
     for _ in range(rng.randint(1, 6)):
-        n = rng.choice(NAMES + ['c', 'a', 'b', 'missing.pt', 'sub/x', 'x.y'])
+        n = rng.choice(NAMES + ['c', 'a', 'b', 'missing.pt', 'sub/x', 'x.y', 'v1.2/index', '.header', 'v1.2/other', '.hidden'])
         r = rng.random()
         if r < 0.15 and files:
             n = rng.choice(files)                      # absolute
@@ -339,10 +340,84 @@ def oracle(ctx):
                 ctx.violation('a load: expression inside a file template must look next to that template first', {'own': in_own, 'other': in_other,
                               'prepend_relative_search_path': prepend, 'name': name}, expected=exp, actual=got)
             shutil.rmtree(base, ignore_errors=True)
+        # (4) package-relative specs: `pkg:path` as a name, and as an entry of the search path
+        nt += package_cases(ctx, d)
     finally:
         shutil.rmtree(d, ignore_errors=True)
     ctx.counters['nontrivial'] = nt
     ctx.sample({'history': [['render'], ['modify', 1, 12], ['names'], ['use', 'b']], 'expected': [{'rendered': 0, 'xml': False}, None, {'names': ['a']}, {'macro': None}]})
+
+
+PKG_FILES = {'tpl/a.pt': 'PA', 'tpl/c': 'PC-plain', 'tpl/c.pt': 'PC-ext', 'tpl/sub/b.pt': 'PB', 'tpl/v1.2/index': 'PI-plain',
+             'tpl/v1.2/index.pt': 'PI-ext', 'other/a.pt': 'OA'}
+
+
+def package_cases(ctx, d):
+    """a throw-away package on sys.path; every spec is resolved by a reference and compared with what the loader renders"""
+    import importlib
+    from chameleon import PageTemplateFile
+    from chameleon.loader import TemplateLoader
+    pkg = 'c16pkg_%d_%d' % (os.getpid(), ctx.rng.randrange(10 ** 6))
+    root = os.path.join(d, 'pkgroot')
+    for rel, body in PKG_FILES.items():
+        fn = os.path.join(root, pkg, rel)
+        os.makedirs(os.path.dirname(fn), exist_ok=True)
+        with open(fn, 'w') as fh:
+            fh.write('<p>%s</p>' % body)
+    open(os.path.join(root, pkg, '__init__.py'), 'w').close()
+    plain = os.path.join(d, 'plain')
+    os.makedirs(plain)
+    with open(os.path.join(plain, 'a.pt'), 'w') as fh:
+        fh.write('<p>DIR-A</p>')
+    sys.path.insert(0, root)
+    importlib.invalidate_caches()
+    n = 0
+    try:
+        for _ in range(ctx.budget(60, 1500)):
+            ext = ctx.rng.choice([None, '.pt'])
+            kind = ctx.rng.choice(['spec', 'path', 'mixed'])
+            if kind == 'spec':
+                sp = []
+                rel = ctx.rng.choice(['tpl/a.pt', 'tpl/c', 'tpl/sub/b.pt', 'tpl/v1.2/index', 'tpl/missing.pt', 'other/a.pt'])
+                spec = '%s:%s' % (pkg, rel)
+                # the whole spec is tested for a dot: the package name has none
+                name = rel + ext if (ext and '.' not in spec) else rel
+                exp = PKG_FILES.get(name)
+            else:
+                sp = ['%s:tpl' % pkg] if kind == 'path' else ctx.rng.choice([[plain, '%s:tpl' % pkg], ['%s:tpl' % pkg, plain], ['%s:other' % pkg, '%s:tpl' % pkg]])
+                spec = ctx.rng.choice(['a.pt', 'c', 'sub/b.pt', 'v1.2/index', 'nope.pt'])
+                name = spec + ext if (ext and '.' not in spec) else spec
+                exp = None
+                for entry in sp:
+                    if entry == plain:
+                        if name == 'a.pt':
+                            exp = 'DIR-A'
+                            break
+                    else:
+                        got = PKG_FILES.get(entry.split(':', 1)[1] + '/' + name)
+                        if got is not None:
+                            exp = got
+                            break
+            loader = TemplateLoader(search_path=list(sp), default_extension=ext)
+            try:
+                t = loader.load(spec, PageTemplateFile)
+                out = t()
+                same = loader.load(spec, PageTemplateFile) is t
+            except (ValueError, OSError) as e:
+                out, same = type(e).__name__, True
+            ctx.count('evaluations')
+            n += 1
+            want = '<p>%s</p>' % exp if exp is not None else None
+            ok = (out == want) if want is not None else out in ('ValueError', 'FileNotFoundError', 'OSError')
+            if not ok or not same:
+                ctx.violation('package-relative spec: resolution / default extension / same instance', {'package_files': sorted(PKG_FILES),
+                              'search_path': [x.replace(pkg, 'PKG') for x in sp], 'spec': spec.replace(pkg, 'PKG'), 'ext': ext},
+                              expected=want or 'not found', actual={'rendered': out, 'same_instance': same})
+    finally:
+        sys.path.remove(root)
+        for m in [m for m in sys.modules if m.startswith(pkg)]:
+            del sys.modules[m]
+    return n
 
 
 def reproduce_finding(ctx, f):
